@@ -651,6 +651,7 @@ func profileForTier(prop string) *Profile {
 		p.PSlash = 0.12
 		p.Dust, p.Huge = 0.25, 0.4
 	case "C05":
+		p.PDrain = 0.06 // entering an asset again after everybody left
 		p.PSlash, p.PEvidence, p.PDowntime = 0.12, 0.05, 0.05
 		p.MaxBlocks = 40
 	case "C20":
